@@ -36,6 +36,7 @@ type scenario struct {
 	canon func(o *obs) string
 	// negative: the scenario is intentionally broken; some schedule MUST fail check.
 	negative bool
+	raceQuick0 bool // quick tier: the race pass runs the non-preemptive schedules only (4-thread scenarios: 1 preemption costs minutes at race-build speed)
 	// bounds[tier]: preemption bound (-1 = unbounded)
 	quick, thorough int
 }
@@ -171,20 +172,20 @@ func all(fs ...func(o *obs) []string) func(o *obs) []string {
 
 var scenarios = []*scenario{
 	// ---- (a) channels
-	{name: "a1-buffered1-close-range", group: "a", quick: -1, thorough: -1,
+	{name: "a1-buffered1-close-range", group: "a", quick: 4, thorough: 7,
 		src: `(let ((c (make-channel 1)) (out nil))
   (run (progn (channel-push c 'p1) (channel-push c 'p2) (channel-push c 'p3) (channel-close c)))
   (range (lambda (x) (setq out (add out x))) c)
   out)`,
 		check: all(expectVal("(p1 p2 p3)")), canon: rawVal},
-	{name: "a2-two-producers-cap2", group: "a", quick: 2, thorough: -1,
+	{name: "a2-two-producers-cap2", group: "a", quick: 2, thorough: 4,
 		src: `(let ((c (make-channel 2)) (out nil))
   (run (progn (channel-push c 'a1) (channel-push c 'a2)))
   (run (progn (channel-push c 'b1) (channel-push c 'b2)))
   (dotimes (i 4) (setq out (add out (channel-pop c))))
   out)`,
 		check: multisetFIFO([]string{"a1", "a2", "b1", "b2"}, map[string][]string{"a": {"a1", "a2"}, "b": {"b1", "b2"}}), canon: sortedVal},
-	{name: "a3-unbuffered-two-producers", group: "a", quick: -1, thorough: -1,
+	{name: "a3-unbuffered-two-producers", group: "a", quick: 3, thorough: 5,
 		src: `(let ((c (make-channel 0)) (out nil))
   (run (progn (channel-push c 'a1) (channel-push c 'a2)))
   (run (channel-push c 'b1))
@@ -199,7 +200,7 @@ var scenarios = []*scenario{
   (dotimes (i 4) (setq out (add out (channel-pop r))))
   out)`,
 		check: multisetFIFO([]string{"p1", "p2", "p3", "p4"}, nil), canon: sortedVal},
-	{name: "a5-unbuffered-close-range-two-consumers", group: "a", quick: 2, thorough: 4,
+	{name: "a5-unbuffered-close-range-two-consumers", group: "a", quick: 2, thorough: 3,
 		src: `(let ((c (make-channel 0)) (r (make-channel 4)) (d (make-channel 2)) (out nil))
   (run (progn (range (lambda (x) (channel-push r x)) c) (channel-push d t)))
   (run (progn (range (lambda (x) (channel-push r x)) c) (channel-push d t)))
@@ -210,7 +211,7 @@ var scenarios = []*scenario{
   out)`,
 		check: multisetFIFO([]string{"p1", "p2", "p3"}, nil), canon: sortedVal},
 	// ---- (b) mutex
-	{name: "b1-mutex-counter-2", group: "b", yield: true, quick: 2, thorough: 3,
+	{name: "b1-mutex-counter-2", group: "b", yield: true, quick: 3, thorough: 5,
 		src: `(let ((n 0) (d (make-channel 2)))
   (run (progn (with-mutex-lock the-mutex (tr 'enter-1) (let ((v n)) (tr 'mid-1) (setq n (+ v 1))) (tr 'leave-1)) (channel-push d t)))
   (with-mutex-lock the-mutex (tr 'enter-0) (let ((v n)) (tr 'mid-0) (setq n (+ v 1))) (tr 'leave-0))
@@ -225,21 +226,21 @@ var scenarios = []*scenario{
   (channel-pop d) (channel-pop d)
   n)`,
 		check: all(expectVal("3"), noOverlap, mutexFree), canon: rawVal},
-	{name: "b3-mutex-return-from", group: "b", yield: true, quick: 2, thorough: 3,
+	{name: "b3-mutex-return-from", group: "b", yield: true, quick: 3, thorough: 5,
 		src: `(let ((n 0) (d (make-channel 2)))
   (run (progn (block b (with-mutex-lock the-mutex (tr 'enter-1) (setq n (+ n 1)) (tr 'leave-1) (return-from b nil))) (channel-push d t)))
   (block c (with-mutex-lock the-mutex (tr 'enter-0) (setq n (+ n 1)) (tr 'leave-0) (return-from c nil)))
   (channel-pop d)
   n)`,
 		check: all(expectVal("2"), noOverlap, mutexFree), canon: rawVal},
-	{name: "b4-mutex-error-inside", group: "b", yield: true, quick: 2, thorough: 3,
+	{name: "b4-mutex-error-inside", group: "b", yield: true, quick: 3, thorough: 5,
 		src: `(let ((n 0) (d (make-channel 2)))
   (run (progn (ignore-errors (with-mutex-lock the-mutex (tr 'enter-1) (setq n (+ n 1)) (tr 'leave-1) (error "boom"))) (channel-push d t)))
   (ignore-errors (with-mutex-lock the-mutex (tr 'enter-0) (setq n (+ n 1)) (tr 'leave-0) (/ 1 0)))
   (channel-pop d)
   n)`,
 		check: all(expectVal("2"), noOverlap, mutexFree), canon: rawVal},
-	{name: "a6-two-producers-consumer-thread", group: "a", quick: 1, thorough: 2,
+	{name: "a6-two-producers-consumer-thread", group: "a", raceQuick0: true, quick: 1, thorough: 1,
 		src: `(let ((c (make-channel 1)) (r (make-channel 4)) (out nil))
   (run (progn (channel-push c 'a1) (channel-push c 'a2)))
   (run (progn (channel-push c 'b1) (channel-push c 'b2)))
@@ -259,7 +260,7 @@ var scenarios = []*scenario{
   out)`,
 		check: multisetFIFO([]string{"p1", "p2", "p3"}, nil), canon: sortedVal},
 	// ---- (c) synchronised objects / hash of counters
-	{name: "c1-hash-of-counters", group: "c", yield: true, quick: 2, thorough: 3,
+	{name: "c1-hash-of-counters", group: "c", yield: true, quick: 3, thorough: 4,
 		src: `(let ((h (make-hash-table)) (d (make-channel 2)))
   (setf (gethash 'k h) 0)
   (run (progn (dotimes (i 2) (with-mutex-lock the-mutex (setf (gethash 'k h) (+ (gethash 'k h) 1)))) (channel-push d t)))
@@ -267,7 +268,7 @@ var scenarios = []*scenario{
   (channel-pop d)
   (+ 0 (gethash 'k h)))`,
 		check: all(expectVal("4"), mutexFree), canon: rawVal},
-	{name: "c2-synchronized-instance", group: "c", yield: true, quick: 2, thorough: 3,
+	{name: "c2-synchronized-instance", group: "c", yield: true, quick: 3, thorough: 4,
 		src: `(progn
   (defclass c17-box () ((a :initform 0 :accessor box-a) (b :initform 0 :accessor box-b)))
   (let ((inst (make-instance 'c17-box)) (d (make-channel 2)))
@@ -277,7 +278,7 @@ var scenarios = []*scenario{
     (channel-pop d)
     (list (slot-value inst 'a) (slot-value inst 'b))))`,
 		check: all(expectVal("(1 2)"), mutexFree), canon: rawVal},
-	{name: "c3-synchronized-flavor-instance", group: "c", yield: true, quick: 2, thorough: 3,
+	{name: "c3-synchronized-flavor-instance", group: "c", yield: true, quick: 3, thorough: 4,
 		src: `(progn
   (defflavor c17-cell ((x 0) (y 0)) () :gettable-instance-variables :settable-instance-variables)
   (let ((inst (make-instance 'c17-cell)) (d (make-channel 2)))
@@ -288,21 +289,21 @@ var scenarios = []*scenario{
     (list (send inst :x) (send inst :y))))`,
 		check: all(expectVal("(1 2)"), mutexFree), canon: rawVal},
 	// ---- (d) the interpreter's own tables
-	{name: "d1-concurrent-defvar", group: "d", yield: true, quick: 2, thorough: 3,
+	{name: "d1-concurrent-defvar", group: "d", yield: true, quick: 3, thorough: 5,
 		src: `(let ((d (make-channel 2)))
   (run (progn (defvar c17-v1 11) (channel-push d t)))
   (defvar c17-v2 22)
   (channel-pop d)
   (list (boundp 'c17-v1) (boundp 'c17-v2) c17-v1 c17-v2))`,
 		check: all(expectVal("(t t 11 22)")), canon: rawVal},
-	{name: "d2-concurrent-pretty-print", group: "d", yield: false, quick: 2, thorough: -1,
+	{name: "d2-concurrent-pretty-print", group: "d", yield: false, quick: 2, thorough: 3,
 		src: `(let ((d (make-channel 2)) (r1 nil) (r2 nil))
   (run (progn (setq r1 (write-to-string '(alpha (beta gamma) delta) :pretty t :right-margin 12)) (channel-push d t)))
   (setq r2 (write-to-string '(one (two three (four five)) six) :pretty t :right-margin 10))
   (channel-pop d)
   (list r1 r2))`,
 		check: nil, canon: rawVal},
-	{name: "d3-defmethod-vs-first-call", group: "d", yield: false, quick: 2, thorough: -1,
+	{name: "d3-defmethod-vs-first-call", group: "d", yield: false, quick: -1, thorough: -1,
 		src: `(progn
   (defgeneric @G (a))
   (defmethod @G ((a real)) 'real-method)
@@ -322,7 +323,7 @@ var scenarios = []*scenario{
 			return []string{"stale-dispatch: after defmethod completed the calls gave " + o.val + "; (real|fixnum fixnum real) required"}
 		},
 		canon: func(o *obs) string { return "completed" }},
-	{name: "d4-remove-method-vs-call", group: "d", yield: false, quick: 2, thorough: -1,
+	{name: "d4-remove-method-vs-call", group: "d", yield: false, quick: -1, thorough: -1,
 		src: `(progn
   (defgeneric @G (a))
   (defmethod @G ((a real)) 'real-method)
@@ -343,7 +344,7 @@ var scenarios = []*scenario{
 			return []string{"stale-dispatch: after remove-method completed the calls gave " + o.val + "; (real|fixnum real real) required"}
 		},
 		canon: func(o *obs) string { return "completed" }},
-	{name: "d5-before-daemon-vs-call", group: "d", yield: false, quick: 2, thorough: -1,
+	{name: "d5-before-daemon-vs-call", group: "d", yield: false, quick: -1, thorough: -1,
 		src: `(progn
   (defgeneric @G (a))
   (defmethod @G ((a real)) (tr 'primary) 'real-method)
@@ -368,7 +369,7 @@ var scenarios = []*scenario{
 			return nil
 		},
 		canon: func(o *obs) string { return "completed" }},
-	{name: "d6-two-callers-and-defmethod", group: "d", yield: false, quick: 2, thorough: 3,
+	{name: "d6-two-callers-and-defmethod", group: "d", yield: false, quick: 3, thorough: 4,
 		src: `(progn
   (defgeneric @G (a))
   (defmethod @G ((a real)) 'real-method)
@@ -388,7 +389,7 @@ var scenarios = []*scenario{
 			return nil
 		},
 		canon: func(o *obs) string { return "completed" }},
-	{name: "d7-two-routines-exit-from-the-same-function-body", group: "d", yield: true, quick: 2, thorough: 3,
+	{name: "d7-two-routines-exit-from-the-same-function-body", group: "d", yield: true, quick: 3, thorough: 4,
 		// the compiled body of a function is shared by every routine that calls it: an exit that is on its way to its
 		// block in one routine (it is running the cleanup form) while another routine exits from the same form must
 		// still deliver its own value
@@ -547,14 +548,17 @@ func enumerate(tier string, emit func(string)) {
 		}
 	}
 	// race-detector pass (second binary): every schedule with <= 1 (quick) / <= 2 (thorough) preemptions
-	rb, rs := 1, 4
+	rb, rs := 1, 16
 	if tier == engine.Thorough {
-		rb, rs = 2, 8
+		rb, rs = 2, 16
 	}
 	for _, sc := range scenarios {
 		b := rb
 		if 0 <= bound(sc, tier) && bound(sc, tier) < b {
 			b = bound(sc, tier)
+		}
+		if sc.raceQuick0 && tier != engine.Thorough {
+			b = 0
 		}
 		for sh := 0; sh < rs; sh++ {
 			emit(fmt.Sprintf("race|%s|%d|%d|%d", sc.name, b, sh, rs))
@@ -657,9 +661,9 @@ func execCase(spec string) (res engine.Result) {
 // about generic function dispatch under concurrency, for the concurrent half of C10.
 func GenericScenarioSpecs(tier string) []string {
 	var specs []string
-	rb, rs := 1, 4
+	rb, rs := 1, 16
 	if tier == engine.Thorough {
-		rb, rs = 2, 8
+		rb, rs = 2, 16
 	}
 	for _, sc := range scenarios {
 		if !strings.HasPrefix(sc.name, "d3-") && !strings.HasPrefix(sc.name, "d4-") && !strings.HasPrefix(sc.name, "d5-") && !strings.HasPrefix(sc.name, "d6-") {
@@ -671,6 +675,9 @@ func GenericScenarioSpecs(tier string) []string {
 		b := rb
 		if 0 <= bound(sc, tier) && bound(sc, tier) < b {
 			b = bound(sc, tier)
+		}
+		if sc.raceQuick0 && tier != engine.Thorough {
+			b = 0
 		}
 		for sh := 0; sh < rs; sh++ {
 			specs = append(specs, fmt.Sprintf("race|%s|%d|%d|%d", sc.name, b, sh, rs))
@@ -728,6 +735,7 @@ func init() {
 				"explanation":                   "states = scheduling points visited over all explored executions (stateless search: not deduplicated); transitions = steps fired; every explored schedule IS an execution of the real implementation",
 			}
 		},
-		CaseDeadlineS: 120,
+		CaseDeadlineS: 400,
+		RoundRobin:    true,
 	})
 }
